@@ -219,7 +219,8 @@ class RunCtx:
         for (w, prof, ls) in getattr(built, "preloaded", []):
             self.ledgers[id(w)].profiles[id(prof)] = (prof, ls)
         self.live_pools = {id(p): p for p in built.worker_pools.worker_pools}
-        ntasks = sum(len(tg.get_nodes()) for tg in built.workload.task_graphs.values())
+        ntasks = sum(len(tg.get_nodes()) for tg in
+                     (getattr(built, "full_workload", None) or built.workload).task_graphs.values())
         total = world["sim"]["loop_timeout"]
         self.iter_budget = min(400 * (ntasks + 10) + 60 * min(total, 100000) + 5000, 25000 + 300 * ntasks)
         self.zeno_limit = 1500 + 60 * ntasks
